@@ -309,7 +309,7 @@ func (e *Evaluator) Eval(
 		return nil
 
 	//=begin
-	case t.IsEqualIdentifier() && nextT.IsTargetIdentifier("begin"):
+	case t.IsEqualIdentifier() && nextT.IsTargetIdentifier("begin") && !nextT.IsBeforeSpace:
 		return skipMultilineComment(p)
 
 	// test()
